@@ -41,7 +41,7 @@ def _merge_order(value, old_text):
     return None, None
 
 
-def r1(run: Run, src, rt):
+def _r1_executor_structural(run: Run, src):
     ex = src.cls('Executor')
     init = ex.methods.get('__init__')
     sc = ex.methods.get('set_cells')
@@ -157,6 +157,9 @@ def r1(run: Run, src, rt):
     t = ast.unparse(td.node) if td else ''
     run.check("'uid': self.uid" in t and "'value': self.value" in t, 'C04.R1', 'Cell.to_dict', 'to-dict', 'to_dict does not carry uid '
               'and value', fact='uid, value', loc=loc_of(td.module.path, td.node) if td else '')
+
+
+def _r1_set_arguments_structural(run: Run, rt):
     # set_arguments merge in both runtime copies
     for cp in rt.copies():
         fn = cp.members.get('set_arguments')
@@ -170,6 +173,66 @@ def r1(run: Run, src, rt):
                   f'after set_arguments the override map is built from [{shown}]: it must be the previous map with the new arguments '
                   f'(every one of them, keyed by its uid) laid over it, so that a new write replaces an older one', fact='old then new',
                   loc=cp.loc(fn))
+
+
+def r1_set_arguments_eval(run: Run, rt):
+    """the merge of a batch into the override map, decided by abstract evaluation (engine F) of set_arguments: the previous map
+    with every new argument laid over it, keyed by uid, the last write to one uid winning, whatever the values are"""
+    from ..finite import evaluator_for, AV, const_av, Unknown, AbsRaise
+
+    def d(pairs):
+        return AV('dict', items=tuple(AV('tuple', items=(const_av(k), v if isinstance(v, AV) else const_av(v))) for k, v in pairs))
+    cases = [
+        ('new-over-old', [('a', 1), ('b', 2)], [('b', 20), ('c', 3)], {'a': 1, 'b': 20, 'c': 3}),
+        ('last-write-in-a-batch', [('a', 1)], [('c', 3), ('a', 5), ('c', 4)], {'a': 5, 'c': 4}),
+        ('falsy-values', [('a', 1), ('b', 2), ('e', 9)], [('a', None), ('b', 0), ('c', ''), ('d', False)],
+         {'a': None, 'b': 0, 'c': '', 'd': False, 'e': 9}),
+        ('empty-batch', [('a', 1)], [], {'a': 1}),
+        ('first-batch', [], [('a', 0)], {'a': 0}),
+        ('equal-under-==', [('a', 1)], [('a', True)], {'a': True}),
+    ]
+    for cp in rt.copies():
+        fn = cp.members.get('set_arguments')
+        if fn is None:
+            run.bad('C04.R1', f'set_arguments[{cp.label}]', 'missing', 'set_arguments missing', loc=cp.path)
+            continue
+        for name, old, batch, want in cases:
+            ev = evaluator_for(cp, max_depth=6)
+            me = ev.new_obj('ExcelInPython', {'_arguments': d(old)})
+            arg = AV('list', items=tuple(d([('uid', u), ('title', 0), ('column', 0), ('row', 0), ('value', v)]) for u, v in batch))
+            construct = f'set_arguments[{cp.label}]/{name}'
+            try:
+                ev.call_method('set_arguments', [arg], me)
+            except Unknown as u:
+                raise AnalysisError('C04.R1', f'{construct}: the abstraction cannot follow set_arguments ({u})')
+            except AbsRaise as e:
+                run.bad('C04.R1', construct, f'raises:{e.exc}', f'set_arguments raises {e.exc} for the batch {batch} over {old}', loc=cp.loc(fn))
+                continue
+            res = ev.unbox(ev.obj_attrs(me).get('_arguments', AV('none')))
+            got = None
+            if res.kind == 'dict' and res.items is not None:
+                got = {kv.items[0].val: (None if kv.items[1].kind == 'none' else kv.items[1].val) for kv in res.items}
+            same = got is not None and set(got) == set(want) and all(type(got[k]) is type(want[k]) and got[k] == want[k] for k in want)
+            run.check(same, 'C04.R1', construct, 'merge',
+                      f'after set_arguments with the batch {batch} over the map {dict(old)} the override map is {got}; it must be the '
+                      f'previous map with the new arguments (every one of them, keyed by its uid) laid over it: {want}',
+                      fact=f'-> {got}', loc=cp.loc(fn))
+
+
+def r1(run: Run, src, rt):
+    """decided by evaluation; the structural reading of the code is the fallback where the abstraction cannot follow"""
+    from . import executor_eval
+    try:
+        executor_eval.evaluate_histories(run, 'C04.R1', src)
+        run.extra['executor_by_evaluation'] = True
+    except AnalysisError as e:
+        run.notes.append(f'C04.R1: executor by structure ({e})')
+        _r1_executor_structural(run, src)
+    try:
+        r1_set_arguments_eval(run, rt)
+    except AnalysisError as e:
+        run.notes.append(f'C04.R1: set_arguments by structure ({e})')
+        _r1_set_arguments_structural(run, rt)
 
 
 def _argument_layers(fn: ast.FunctionDef, param: str) -> list:
@@ -534,7 +597,8 @@ def run(run: Run):
     run.rule('C04.R3', 'any address can be overridden; sizes only grow; blank fallback')
     run.guard('C04.R1', r1, run, src, rt)
     run.guard('C04.R2', r2, run, rt)
-    run.guard('C04.R3', r3, run, src)
+    if not run.extra.get('executor_by_evaluation'):
+        run.guard('C04.R3', r3, run, src)          # growth of the sizes: part of the evaluated histories otherwise
     # an override only reaches a reference that goes through the override-aware accessor: references are minted by the context
     from .common import borrow
     from . import c03
@@ -560,5 +624,5 @@ def run(run: Run):
     run.floor('C04.R4', 6)
     run.floor('C04.R1', 8)
     run.floor('C04.R2', 4)
-    run.floor('C04.R3', 5)
+    run.floor('C04.R3', 2)
     return INFO
